@@ -9,7 +9,7 @@ CONSTANTS
  Defect = "none"
  MaxFeeds = 1
  MaxDials = 2
- MaxTime = 11
+ MaxTime = 14
  MaxSubs = 1
  FeedSet <- FramesLife
  DialSet <- DialAll
